@@ -178,6 +178,34 @@ theorem mmap_history (ops : List MOp) (h : ∀ op ∈ ops, op.ok) :
   unfold specMMap runMMap
   rw [this.2 k, he]
 
+/-! ## Workspaces: the original map and its copies stay independent -/
+
+/-- histories over several live maps (`fork` keeps the original alive next to its copy, operations
+    address any live map, `mergeCopy` merges a copy of one live map into another): every live map —
+    the original after a copy was taken, restructured or written, and every copy — is well formed and
+    is its own byte store. -/
+theorem workspace_history (ops : List WOp) (hok : ∀ op ∈ ops, op.ok) :
+    WsInv (runWorkspace ops) (specWorkspace ops) :=
+  runWorkspace_inv ops _ _ WsInv.init hok
+
+/-- an operation on one map leaves every other live map untouched.  In the functional model this holds
+    by construction (maps are values); for the Python objects it is what the correspondence on all
+    live maps establishes on every run. -/
+theorem op_leaves_others (ws : List MMap) (i j : Nat) (op : MOp) (h : i ≠ j) :
+    (WOp.apply ws (.on i op))[j]? = ws[j]? := by
+  simp only [WOp.apply]
+  cases ws[i]? with
+  | none => rfl
+  | some mm => rw [List.getElem?_set]; simp [h]
+
+/-- taking a copy leaves every existing map (the original included) untouched. -/
+theorem fork_leaves_others (ws : List MMap) (src j : Nat) (hj : j < ws.length) :
+    (WOp.apply ws (.fork src))[j]? = ws[j]? := by
+  simp only [WOp.apply]
+  cases ws[src]? with
+  | none => rfl
+  | some mm => rw [List.getElem?_append_left hj]
+
 /-! ## Non-vacuity -/
 
 /-- a history with an overlap inside raw bytes by a big-endian expression, an adjacent write, a partial
@@ -213,5 +241,12 @@ example : ∀ op ∈ [MOp.write (.ptrSym "esp" true (-4)) (.raw [1, 2]) .little,
   intro op h
   simp only [List.mem_cons, List.not_mem_nil, or_false] at h
   rcases h with rfl | rfl | rfl <;> simp [MOp.ok, Val.len]
+
+example : ∀ op ∈ [WOp.on 0 (.write (.int 20) (.raw [66, 66, 66, 66]) .little), .on 0 (.write (.int 16) (.raw [65, 65, 65, 65]) .little),
+    .fork 0, .on 0 (.write (.int 21) (.raw [88]) .little), .on 1 (.write (.int 14) (.raw [90, 90, 90, 90]) .big), .mergeCopy 1 0],
+    op.ok := by
+  intro op h
+  simp only [List.mem_cons, List.not_mem_nil, or_false] at h
+  rcases h with rfl | rfl | rfl | rfl | rfl | rfl <;> simp [WOp.ok, MOp.ok, Val.len]
 
 end Amoco.Memory.Props
